@@ -6,29 +6,68 @@ import os
 HERE = os.path.dirname(os.path.dirname(os.path.abspath(__file__)))
 
 # id -> (technique, level text, level note, design ref)
+PBT = 'property-based testing (Hypothesis generated-input search, seeded, sharded, shrunk to a JSON replay); oracle: '
 CHECKS = {
-    'C18': (
-        'property-based testing (Hypothesis): generated monotone function batches with known roots; '
-        'reference-root oracle, lane-independence metamorphic relation, invalid-bracket error contract',
-        'Generated-input search over batches of 1..1000 lanes from 7 monotone function kinds, slopes over 12 '
-        'decades, roots at bracket ends, mixed per-lane difficulty; every lane is compared with its known root '
-        '(containment, tolerance), lane-alone vs in-batch, scalar vs vector, invalid brackets must raise, and both '
-        'solvers are driven through GaussianKDE.percent_point. Exploration, not proof: thousands (quick) to '
-        '~1.5e5 (thorough) batches per run; all 8 seeded solver mutants are killed in the quick tier.',
-        'Trusted: numpy elementwise arithmetic of the generated functions; the sign of f is exact around the root. '
-        'Tolerance for chandrupatla includes 8 ulp of the bracket end (floating resolution).',
-        'DESIGN.md 4/C18'),
-    'C06': (
-        'property-based testing (Hypothesis): generated (family, theta, point batch) against a 50-digit mpmath '
-        'reference CDF plus copula-axiom, generator-identity, theta-order and row-independence invariants',
-        'Generated-input search over the three families, theta across the whole |tau|<=0.8 range (incl. Gumbel theta=1, '
-        'Frank near 0 and at +-18.2) and point batches that mix interior, boundary-hugging (1e-12), exact-boundary and '
-        'denormal coordinates. Decided by an independent high-precision reference and by the copula axioms '
-        '(groundedness exact, margins, Frechet bounds, symmetry, 2-increasing on generated rectangles), the Archimedean '
-        'generator identity, ordering in theta and row independence. Exploration: ~6e3 (quick) / ~2e5 (thorough) batches.',
-        'Trusted: mpmath closed forms of Nelsen table 4.1. Tolerances: 1e-12 (Clayton, Gumbel), '
-        '1e-12+32 eps (1+e^|theta|)/|theta| (Frank, documented cancellation).',
-        'DESIGN.md 4/C06'),
+    'C01': (PBT + 'exact schema checks + distribution-free DKW / Hoeffding bands against the fitted marginals and the fitted correlation, recovery bands against the generating law',
+            'Generated Gaussian-copula tables (2..6 columns, 9 marginal kinds, 4 correlation structures, constant columns) x every marginal configuration x n x seed; exact clauses (row count, column order, no NaN, constant column) are decided exactly, distributional clauses up to finite-sample bands with per-assertion false-alarm 1e-13.',
+            'Statistical clauses are sound but weak (bands ~0.03-0.06 in CDF distance); sharp content is covered by C02/C03/C04/C13.'),
+    'C02': (PBT + 'independently recomputed Pearson correlation of normal scores + matrix validity invariants',
+            'Generated tables incl. duplicated / negated / affine / constant columns and every marginal configuration; the fitted matrix is compared entry-wise with an independent recomputation and checked for symmetry, range, diagonal, PSD, labels, ridge only when singular, and that sampling/density still work.',
+            'Trusted: numpy corrcoef / eigvalsh, scipy norm.ppf.'),
+    'C03': (PBT + 'distribution-function laws (monotonicity, range, limits, integral of pdf = CDF increment, discrete inverse, exp(logpdf)=pdf, point mass)',
+            'Generated samples (>=5 distinct values or constant; 6 decades of location/scale, ties, heavy tails) x every univariate class and option x evaluation points and probabilities through the EPS clipping zone.',
+            'Quadrature-based clauses count inconclusive cases instead of failing; tolerances stated in DESIGN 4/C03.'),
+    'C04': (PBT + 'generating-law CDF bands, exact closed-form estimators, own weighted kernel-sum reference for the KDE',
+            'Generated family members over wide parameter ranges, n 200..5000; closeness for every dataset (closed-form / own optimiser) or by the exact-binomial 80% rule (scipy MLE families).',
+            'Bands 3.5/sqrt(n) and 4.5/sqrt(n) measured with margin; see DESIGN 4/C04.'),
+    'C05': (PBT + 'differential: own KS arg-min over freshly fitted candidates, tag-filter reference, per-column configuration reference, fallback contract',
+            'Generated datasets x candidate lists / filter combinations / per-column configurations incl. a distribution that raises during fit.',
+            'Ties between candidates may go either way (validity predicate, not a single expected answer).'),
+    'C06': (PBT + '50-digit mpmath reference CDF + copula axioms, generator identity, theta ordering, row independence',
+            'Generated (family, theta, point batch): theta across the whole |tau|<=0.8 range (Gumbel theta=1, Frank near 0 and +-18.2), points mixing interior, boundary-hugging (1e-12), exact-boundary and denormal coordinates; rectangles for 2-increasingness.',
+            'Trusted: mpmath closed forms of Nelsen table 4.1. Tolerances 1e-12 (Clayton, Gumbel), 1e-12+32 eps (1+e^|theta|)/|theta| (Frank).'),
+    'C07': (PBT + 'mpmath.diff derivatives of the reference CDF + range/monotonicity/limit/symmetry invariants + quadrature identities between the code\'s own C, h and c + row independence',
+            'Generated (family, theta, interior point batch); h and c are compared with 40-digit numerical derivatives of an independent reference CDF, and the code\'s C, h, c are tied together by adaptive quadrature on generated intervals and rectangles.',
+            'Trusted: mpmath.diff; tolerance rel 1e-9 (+64 eps e^|theta| for Frank).'),
+    'C08': (PBT + 'round trip h(ppf(y,v),v)=y against the code and an independent reference h, monotonicity, lane independence',
+            'Generated (family, theta, vectors of (y,v) in [1e-4,1-1e-4]^2 of length 1..200).',
+            'Root-finder tolerance 1e-6 in y.'),
+    'C09': (PBT + 'DKW bands on margins, Hoeffding U-statistic band on Kendall tau, grid joint-CDF band against code and reference CDF, Rosenblatt transform uniformity',
+            'Generated (family, tau or theta, seed, n); statistical agreement with false-alarm probability < 1e-9 per run.',
+            'Weak-but-sound bands; sharp content in C06-C08.'),
+    'C10': (PBT + 'tau-b equality with scipy, closed-form / Debye-function calibration reference, refusal contract (ValueError)',
+            'Generated (n,2) pseudo-observations incl. ties, (anti-)monotone, exact tau=0, constant columns and out-of-range values.',
+            'Frank solver accuracy 5e-3 in tau.'),
+    'C11': (PBT + 'calibration of the returned object, determinism metamorphic relation, recovery rate by exact binomial test against 70%',
+            'Generated arbitrary pseudo-observation arrays + samples from an independent reference sampler per (family, tau) cell.',
+            'Recovery clause statistical.'),
+    'C12': (PBT + 'exact fixed-column check + own Schur-complement conditional law (censored-normal DKW, whitened joint test)',
+            'Generated fitted models x condition subsets in arbitrary order x values in/at/outside the range x dict/Series.',
+            'Statistical bands alpha 1e-13 per assertion.'),
+    'C13': (PBT + 'own MVN density, MVN CDF on own normal scores, container / permutation / row-independence metamorphic relations',
+            'Generated fitted models x query batches x containers (DataFrame with permuted columns, ndarray, Series).',
+            'For d>=3 the MVN integrator is scipy\'s (2e-4 tolerance); data flow is independent.'),
+    'C14': (PBT + 'round-trip observational equality (to_dict, probes, seeded sample streams) across dict / pickle / JSON routes, repeated',
+            'Generated models of every class with options, trained on generated data incl. constant and edge parameters.',
+            'Observation = public API only.'),
+    'C15': (PBT + 'model-based generated call histories: global-RNG-state invariant, isolated twin replay, exception safety',
+            'Generated interleavings of sample / set_random_state / global RNG perturbation / raising calls over a pool of all sampler classes.',
+            'Single-threaded histories.'),
+    'C16': (PBT + 'independent regular-vine structural validator, star/path shape, Kruskal maximum-spanning weight',
+            'Generated tables d 2..7 x vine type x truncation; every fitted vine is validated structurally.',
+            'Rejected inputs (ValueError on degenerate dependence) are counted.'),
+    'C17': (PBT + 'variable-identity recursion reference for pair copulas, pseudo-observations and likelihood; determinism under np.empty poisoning; d=2 sampling bands',
+            'Generated tables d 2..6 x vine type x truncation x u in (0,1)^d.',
+            'Sampling clause statistical.'),
+    'C18': (PBT + 'known-root reference for generated monotone function batches, lane-independence metamorphic relation, invalid-bracket error contract',
+            'Generated batches of 1..1000 lanes from 7 monotone function kinds, slopes over 12 decades, roots at bracket ends, mixed per-lane difficulty; both solvers also driven through GaussianKDE.percent_point.',
+            'The sign of the generated f is exact around the root; chandrupatla tolerance includes 8 ulp of the bracket end.'),
+    'C19': (PBT + 'model-based generated fit histories: refit == fresh fit observationally, NotFittedError / ValueError contract, get_instance clone equivalence, np.empty poison differential (fault injection)',
+            'Generated sequences of fits on constant / non-constant datasets over every model class, invalid inputs, prototype forms.',
+            'Uninitialised-memory clause decided for the np.empty sites in tree.py / vine.py by poisoning.'),
+    'C20': (PBT + 'deep snapshot equality of every argument before/after, read-only ndarray inputs, reuse of the same objects, figure trace multisets',
+            'Generated calls of every public entry point with every documented container.',
+            'Figures inspected through plotly trace data.'),
 }
 
 
@@ -40,7 +79,9 @@ def main():
     not_applicable = []
     for pid in props:
         if pid in present and pid in CHECKS:
-            tech, text, note, ref = CHECKS[pid]
+            tech, text, note = CHECKS[pid]
+            ref = 'DESIGN.md section 4, ' + pid
+            text = text + ' Exploration, not proof: case counts and class histograms are in the evidence file; the mutants listed in notes/mutants.md are killed in the quick tier.'
             checks.append({
                 'property_id': pid,
                 'quick_cmd': '/venv/bin/python run_check.py %s --tier quick' % pid,
